@@ -11,6 +11,7 @@ A: MC_CommB.CasMonotone (table sanity) + the table itself; B/C: pyModeS.aero eva
 from . import c01
 
 SPEEDS = [0.5, 1, 2, 5, 10, 20, 50, 80, 120, 160, 200, 250, 300, 340, 380, 420, 450]
+SPEEDS_T = sorted(set(SPEEDS + [0.5 + 2.5 * k for k in range(180)]))
 MACHS = [0.01, 0.05, 0.1, 0.2, 0.3, 0.5, 0.7, 0.8, 0.9, 1.0, 1.1, 1.2, 1.3]
 
 
@@ -21,11 +22,13 @@ def um(x):
 def vectors(ctx):
     rng = ctx.rng
     V = []
+    SPEEDS = globals()["SPEEDS"] if ctx.quick else SPEEDS_T
+    extra_alts = [] if ctx.quick else [-500 + 125 * k for k in range(165)]
     for k in range(1, 43):
         for arr in (0, 1):
             V.append({"fn": "aero.isa", "k": k, "arr": arr, "case": ["isa", k, arr]})
     V.append({"fn": "aero.tropopause", "case": ["tropo"]})
-    alts = [-500 + 500 * k for k in range(42)] + [10999.999, 11000, 11000.001]
+    alts = sorted(set([-500 + 500 * k for k in range(42)] + [10999.999, 11000, 11000.001] + extra_alts))
     if ctx.quick:
         alts = alts[::4] + [0, 11000, 10999.999, 11000.001, 20000]
     for h in alts:
@@ -49,7 +52,7 @@ def vectors(ctx):
             if not ctx.quick or s in (0.5, 120, 450):
                 V.append({"fn": "aero.same", "name": rng.choice(["tas2cas", "cas2tas", "tas2eas", "eas2tas", "tas2mach"]),
                           "x": um(s), "h": h, "case": ["same", s, h]})
-    for _ in range(ctx.pick(1500, 10000)):
+    for _ in range(ctx.pick(1500, 200000)):
         la1, la2 = rng.randrange(-90, 91), rng.randrange(-90, 91)
         lo1, lo2 = rng.randrange(-180, 181), rng.randrange(-180, 181)
         H = rng.choice([0, 0, 0, 1000, 11000, 20000])
